@@ -354,11 +354,21 @@ impl Walrus {
                 };
                 let col_name = md.owned_by;
 
+                // A block allocated for an entry larger than one unit spans several units;
+                // every entry header records where its block ends.
+                let mut block_limit = DEFAULT_BLOCK_SIZE;
+                if md.next_block_start > block_offset
+                    && md.next_block_start <= MAX_FILE_SIZE
+                    && (md.next_block_start - block_offset) % DEFAULT_BLOCK_SIZE == 0
+                {
+                    block_limit = md.next_block_start - block_offset;
+                }
+
                 // scan entries to compute used
                 let block_stub = Block {
                     id: next_block_id as u64,
                     offset: block_offset,
-                    limit: DEFAULT_BLOCK_SIZE,
+                    limit: block_limit,
                     used: 0,
                     file_path: file_path.clone(),
                     mmap: mmap.clone(),
@@ -370,7 +380,7 @@ impl Walrus {
                             used += consumed as u64;
                             in_block_off += consumed as u64;
                             entries_in_block = entries_in_block.saturating_add(1);
-                            if in_block_off >= DEFAULT_BLOCK_SIZE {
+                            if in_block_off >= block_limit {
                                 break;
                             }
                         }
@@ -378,7 +388,7 @@ impl Walrus {
                     }
                 }
                 if used == 0 {
-                    block_offset += DEFAULT_BLOCK_SIZE;
+                    block_offset += block_limit;
                     next_block_id += 1;
                     continue;
                 }
@@ -386,7 +396,7 @@ impl Walrus {
                 let block = Block {
                     id: next_block_id as u64,
                     offset: block_offset,
-                    limit: DEFAULT_BLOCK_SIZE,
+                    limit: block_limit,
                     used,
                     file_path: file_path.clone(),
                     mmap: mmap.clone(),
@@ -409,7 +419,7 @@ impl Walrus {
                     );
                 }
                 next_block_id += 1;
-                block_offset += DEFAULT_BLOCK_SIZE;
+                block_offset += block_limit;
             }
         }
 
